@@ -4,6 +4,8 @@
                                      (a) in one process running 16 consecutive indices, (b) in 16 separate processes
                                      running one index each (stride 16), (c) in the release harness; per-run plan hashes
                                      and result digests must be identical in all three.
+  ./check selftest specificity       every behaviour-preserving change under /verif/benign/*/patch.diff is applied to /repo and
+                                     every quick check must stay silent (exit 0), then the tree is restored.
   ./check selftest sensitivity       every change under /verif/seeded/*/patch.diff is applied to /repo, the quick
                                      check of its property must exit 1 with a VIOLATION line, the patch is reverted
                                      (git checkout) and /repo must be clean again.
@@ -121,10 +123,49 @@ def sensitivity(only=None):
     return rc_all
 
 
+def specificity(only=None):
+    """Behaviour-preserving changes under /verif/benign must not raise any alarm in any check."""
+    bank = os.path.join(driver.VERIF, "benign")
+    props = sorted(driver.PROPS)
+    bad = 0
+    n = 0
+    for name in sorted(os.listdir(bank)):
+        patch = os.path.join(bank, name, "patch.diff")
+        if not os.path.exists(patch):
+            continue
+        if only and not any(name.startswith(o) for o in only):
+            continue
+        if subprocess.run(["git", "-C", driver.REPO, "diff", "--quiet"]).returncode != 0:
+            driver.log("HARNESS-ERROR /repo has uncommitted changes; refusing to apply patches")
+            return 2
+        if subprocess.run(["git", "-C", driver.REPO, "apply", patch]).returncode != 0:
+            driver.log("[specificity] %s: patch does not apply" % name)
+            bad += 1
+            continue
+        n += 1
+        try:
+            for prop in props:
+                p = subprocess.run([os.path.join(driver.VERIF, "check"), prop, "quick"], stdout=subprocess.PIPE, stderr=subprocess.STDOUT, text=True)
+                alarms = [l for l in p.stdout.splitlines() if l.startswith("VIOLATION") or l.startswith("HARNESS")]
+                if p.returncode != 0 or alarms:
+                    bad += 1
+                    driver.log("[specificity] %s %s: ALARM rc=%d %s" % (name, prop, p.returncode, (alarms or [""])[0][:200]))
+        finally:
+            subprocess.run(["git", "-C", driver.REPO, "checkout", "--", "."])
+        driver.log("[specificity] %s done" % name)
+    for f in os.listdir(driver.REPLAYS):
+        if f.endswith(".plan"):
+            os.unlink(os.path.join(driver.REPLAYS, f))
+    driver.log("[specificity] %d behaviour-preserving changes x %d checks, %d alarms" % (n, len(props), bad))
+    return 1 if bad else 0
+
+
 def main(argv):
     if not argv:
         print(__doc__)
         return 2
+    if argv[0] == "specificity":
+        return specificity(argv[1:] or None)
     if argv[0] == "determinism":
         return determinism(int(argv[1]) if len(argv) > 1 else 300)
     if argv[0] == "sensitivity":
